@@ -82,28 +82,61 @@ def check(ctx):
         crel, cls = F.rel_cls(key)
         rat = F.method(ctx, key, "read_as_traj")
         rd = F.method(ctx, key, "read")
-        # (a) frame protocol
-        fr = None
-        for n in walk_no_nested(lf):
-            if isinstance(n, ast.If) and "frame is not None" in src(n.test):
-                fr = n
-        if fr is None:
-            ctx.violated("C02-R1", lf, rel, lname, "frame protocol", "no `if frame is not None` branch: the frame argument is ignored")
-        else:
-            seeks = [c for s in fr.body for c in ast.walk(s) if isinstance(c, ast.Call) and (call_name(c) or "").endswith(".seek")]
-            one = [a for s in fr.body for a in ast.walk(s) if isinstance(a, ast.Assign) and dotted(a.targets[0]) == "n_frames" and const(a.value) == 1]
-            ok = bool(seeks) and dotted(seeks[0].args[0]) == "frame" and bool(one)
-            ctx.decide(ok, "C02-R1", fr, rel, lname, "frame -> seek(frame), n_frames=1", "", "frame branch does not seek to `frame` and read exactly one frame")
-        # (b) loader -> read_as_traj
-        rcalls = _calls(lf, lambda c: (call_name(c) or "").endswith(".read_as_traj"))
-        if not rcalls:
-            ctx.undecided("C02-R1", lf, rel, lname, "read_as_traj call", "not found")
-        else:
-            for pname in ("n_frames", "stride", "atom_indices"):
-                v = _kw_or_pos(rcalls[0], pname, params(rat))
-                ok = v is not None and pname in {x for x in (dotted(v), ) if x} | ({pname} if v is not None and pname in src(v) else set())
-                ctx.decide(ok, "C02-R1", rcalls[0], rel, lname, "%s -> read_as_traj" % pname, "passed",
-                           "%s is not passed from %s to read_as_traj: the option is silently ignored" % (pname, lname))
+        # (a) + (b): the loader evaluated (sa/tensym.py) with the file class replaced by a recorder: frame=None -> no seek, one read_as_traj with
+        # n_frames=None and the caller's stride / atom_indices; frame=k -> seek(k) before a read_as_traj of exactly one frame
+        from ..tensym import TenSym, Obj, Raised
+        from ..pysym import Unsupported as PUnsupported
+        rat_params = params(rat)
+        mod_funcs = {q_: f_ for q_, f_ in ctx.py.mod(rel).functions.items() if "." not in q_ and q_ != lname}
+        for frame in (None, 0, 3):        # frame 0 is a frame, not "no frame"
+            rec = {"seek": [], "rat": []}
+
+            def mkfile(ev, call, rec=rec):
+                o = Obj(tag="file", distance_unit="?", _lenient=True)
+                o.seek = lambda *a_, **k_: rec["seek"].append((a_, k_, len(rec["rat"])))
+                o.read_as_traj = lambda *a_, **k_: (rec["rat"].append((a_, k_)), Obj(tag="traj", _lenient=True))[1]
+                o.__enter__ = lambda: o
+                return o
+            topo = Obj(tag="top", n_atoms=7, _numAtoms=7, _lenient=True)
+            ts = TenSym({"os": Obj(PathLike="PathLike")}, funcs=mod_funcs,
+                        models={cls: mkfile, "_parse_topology": lambda ev, c: topo, "cast_indices": lambda ev, c: ev.ex(c.args[0]), "warnings.warn": lambda ev, c: None})
+            desc = "frame=%s: %s" % (frame, "no seek, read_as_traj(n_frames=None, stride, atom_indices)" if frame is None else "seek(frame), then read_as_traj of exactly one frame with stride / atom_indices passed on")
+            try:
+                given = {p_: v_ for p_, v_ in (("filename", "file.ext"), ("top", Obj(tag="topin", n_atoms=7, _numAtoms=7, _lenient=True)), ("stride", "S"), ("atom_indices", "AI"), ("frame", frame)) if p_ in params(lf)}
+                missing = [p_ for p_ in ("stride", "atom_indices", "frame") if p_ not in given]
+                if missing:
+                    ctx.violated("C02-R1", lf, rel, lname, desc, "%s has no parameter %s" % (lname, ", ".join(missing)))
+                    continue
+                ts.run_fn(lf, **given)
+            except Raised as e:
+                ctx.violated("C02-R1", lf, rel, lname, desc, "the loader raises %s for these arguments" % (e.exc or e))
+                continue
+            except PUnsupported as e:
+                ctx.undecided("C02-R1", lf, rel, lname, desc, "not evaluable: %s" % e)
+                continue
+            why = []
+            if len(rec["rat"]) != 1:
+                why.append("read_as_traj is called %d times" % len(rec["rat"]))
+            else:
+                a_, k_ = rec["rat"][0]
+                got = dict(k_)
+                for i_, v_ in enumerate(a_):
+                    if i_ + 1 < len(rat_params):
+                        got.setdefault(rat_params[i_ + 1], v_)
+                if got.get("n_frames") != (None if frame is None else 1):
+                    why.append("read_as_traj gets n_frames=%r" % (got.get("n_frames"),))
+                if got.get("stride") != "S":
+                    why.append("stride is not passed to read_as_traj (it gets %r): the option is silently ignored" % (got.get("stride"),))
+                if got.get("atom_indices") != "AI":
+                    why.append("atom_indices is not passed to read_as_traj (it gets %r)" % (got.get("atom_indices"),))
+            if frame is None and rec["seek"]:
+                why.append("seek%r is called although no frame was asked for" % (rec["seek"][0][0],))
+            if frame is not None:
+                if [s_[0] for s_ in rec["seek"]] != [(frame,)] or any(s_[1] for s_ in rec["seek"]):
+                    why.append("seek is called with %s instead of once with the frame number" % [s_[0] for s_ in rec["seek"]])
+                elif rec["seek"][0][2] != 0:
+                    why.append("the seek comes after the read")
+            ctx.decide(not why, "C02-R1", lf, rel, lname, desc, "", "; ".join(why))
         # (c) read_as_traj -> read
         q = cls + ".read_as_traj"
         rc = _calls(rat, lambda c: call_name(c) == "self.read")
